@@ -199,6 +199,21 @@ def check(case, rec):
         # a filtered table (bursting cycles only, every second cycle): rows are no longer adjacent cycles
         keep_rows = [i for i in range(len(df)) if (case['row_subset'] >> (i % 12)) & 1] or [0]
         df = df.iloc[keep_rows].reset_index(drop=True)
+    if case.get('epoch') and case['target'] in ('plot_cyclepoints_df', 'plot_cyclepoints_array') and n >= 40:
+        # one epoch of the recording with its epoch-relative table (epoch_df, as compute_features_2d(axis=None) hands out): the
+        # cycle straddling the start of the epoch has cyclepoints at negative samples, which are not part of the plotted epoch.
+        # Only the two cyclepoint plots: the burst panels place values "at the cycle centres", which is undefined for a cycle whose
+        # centre is not on the plotted time axis (DESIGN 6.2b).
+        from bycycle.utils import epoch_df
+        n_ep = 2 + case['epoch'] % 3
+        L = n // n_ep
+        j = (case['epoch'] // 3) % n_ep
+        tables = guarded(epoch_df, df.copy(deep=True), L * n_ep, L)
+        if len(tables[j]) >= 2:
+            df = tables[j].reset_index(drop=True)
+            x = x[j * L:(j + 1) * L].copy()
+            n = L
+            rec.label('epoch-table', 'negative-samples' if (df[[c_ for c_ in df.columns if c_.startswith('sample_')]].values < 0).any() else 'no-negative-samples')
     nm, centre, side, rises, decays = table_points(df)
     # x-limits on the sample grid
     spec = case['xlim']
@@ -346,7 +361,7 @@ def strategy(draw, tier):
             'plot_only_result': draw(st.sampled_from([True, True, True, False])) if second else draw(st.booleans()),
             'interp': draw(st.booleans()), 'param': draw(st.sampled_from(['monotonicity', 'amp_consistency', 'period_consistency', 'amp_fraction', 'burst_fraction'])),
             'thresh': draw(st.sampled_from([0.0, 0.3, 0.5, 0.8, 1.0])), 'th_order': draw(st.sampled_from([0, 0, 1, 2])),
-            'second_drawing': second, 'row_subset': draw(st.one_of(st.just(0), st.just(0), st.integers(1, 4094)))}
+            'second_drawing': second, 'epoch': draw(st.one_of(st.just(0), st.just(0), st.integers(1, 30))), 'row_subset': draw(st.one_of(st.just(0), st.just(0), st.integers(1, 4094)))}
 
 
 PARTS = [Part('figures', check, strategy=strategy, budget={'quick': 640, 'thorough': 12000}, shards={'quick': 16, 'thorough': 16},
